@@ -319,7 +319,8 @@ def main():
         c16_trio.run(ck)
     except ImportError:
         ck.outside.append('three-asset pool UpdateConfig not built')
-    ck.bounds.update(variants='%d privileged ExecuteMsg variants of 13 contracts, one fixed representative payload each, sender a symbolic identity' % sum(len(v) for _, _, v in TABLE),
+    ck.bounds.update(variants='%d privileged ExecuteMsg variants of 13 contracts (representative payloads; every UpdateConfig also with each optional field independently present or absent: full power set up to 5 fields, otherwise none / each alone / all), sender a symbolic identity' % sum(len(v) for _, _, v in TABLE),
+                     states='configured contracts; additionally the blank-address states instantiate leaves (whale lair, fee collector) and factories with one registered child (creation history)',
                      transfers='ownership transfer then privileged call for pair and vault')
     ck.outside += ['incentive close_flow authorisation is C12.close.auth', 
                    'that a rejected call leaves balances of every contract unchanged follows from atomicity (assumed); additionally no storage write precedes the rejection']
